@@ -154,3 +154,45 @@ Definition last_binding (k : list N) (ms : list (list N * value)) : option value
 
 (* JSON-text = ws value ws; nesting is unbounded *)
 Definition jtext : list N -> value -> Prop := jelement.
+
+(* ------------------------------------------------------------------ RFC 8259 alone (no relaxation), for reference *)
+(* The same grammar with every relaxation removed: ws is space / tab / LF / CR; a string has no raw control character,
+   only \uXXXX escapes (not bracketed), and surrogate escapes only as a high+low pair; the text between the quotes is
+   UTF-8 (RFC 8259 section 8.1).  Numbers are jnumber as they stand (the RFC puts no bound on range or precision).
+   JsonGrammarProofs.rfc_text_jtext: rfc_text t v -> jtext t v, so every RFC 8259 document is accepted with its meaning.
+   (The RFC's ABNF also lets an unpaired surrogate escape through, with "unpredictable" meaning: that part is the
+   relaxation B_lone_low / B_lone_high / DEV_B_high_then_not_low above, not repeated here.) *)
+Inductive rfc_ws : list N -> Prop :=
+| RWS_none : rfc_ws []
+| RWS_char c w : c = 32 \/ c = 9 \/ c = 10 \/ c = 13 -> rfc_ws w -> rfc_ws (c :: w).
+Inductive rfc_string_body : list N -> list N -> Prop :=
+| RB_end : rfc_string_body [] []
+| RB_raw c t s : 32 <= c -> c <> 34 -> c <> 92 -> rfc_string_body t s -> rfc_string_body (c :: t) (c :: s)
+| RB_short x b t s : short_escape x = Some b -> rfc_string_body t s -> rfc_string_body (92 :: x :: t) (b :: s)
+| RB_unicode d n t s : hex4 d = Some n -> is_high n = false -> is_low n = false -> rfc_string_body t s ->
+    rfc_string_body (92 :: 117 :: d ++ t) (utf8_encode n ++ s)
+| RB_pair d1 hi d2 lo t s : hex4 d1 = Some hi -> is_high hi = true -> hex4 d2 = Some lo -> is_low lo = true -> rfc_string_body t s ->
+    rfc_string_body (92 :: 117 :: d1 ++ 92 :: 117 :: d2 ++ t) (utf8_encode (pair_code_point hi lo) ++ s).
+Inductive rfc_string : list N -> list N -> Prop :=
+| RStr b s : rfc_string_body b s -> utf8_valid b = true -> rfc_string (34 :: b ++ [34]) s.
+Inductive rfc_key : list N -> list N -> Prop :=
+| RKey w1 t k w2 : rfc_ws w1 -> rfc_string t k -> rfc_ws w2 -> rfc_key (w1 ++ t ++ w2) k.
+Inductive rfc_value : list N -> value -> Prop :=
+| RV_null : rfc_value [110; 117; 108; 108] VNull
+| RV_true : rfc_value [116; 114; 117; 101] (VBool true)
+| RV_false : rfc_value [102; 97; 108; 115; 101] (VBool false)
+| RV_number t n : jnumber t n -> rfc_value t (VNum n)
+| RV_string t s : rfc_string t s -> rfc_value t (VStr s)
+| RV_empty_array w : rfc_ws w -> rfc_value (91 :: w ++ [93]) (VArr [])
+| RV_array t l : rfc_elements t l -> rfc_value (91 :: t ++ [93]) (VArr l)
+| RV_empty_object w : rfc_ws w -> rfc_value (123 :: w ++ [125]) (VObj [])
+| RV_object t ms : rfc_members t ms -> rfc_value (123 :: t ++ [125]) (VObj (assoc_of_list ms))
+with rfc_element : list N -> value -> Prop :=
+| RElem w1 t v w2 : rfc_ws w1 -> rfc_value t v -> rfc_ws w2 -> rfc_element (w1 ++ t ++ w2) v
+with rfc_elements : list N -> list value -> Prop :=
+| REs_one t v : rfc_element t v -> rfc_elements t [v]
+| REs_cons t v ts l : rfc_element t v -> rfc_elements ts l -> rfc_elements (t ++ 44 :: ts) (v :: l)
+with rfc_members : list N -> list (list N * value) -> Prop :=
+| RMs_one tk k tv v : rfc_key tk k -> rfc_element tv v -> rfc_members (tk ++ 58 :: tv) [(k, v)]
+| RMs_cons tk k tv v ts ms : rfc_key tk k -> rfc_element tv v -> rfc_members ts ms -> rfc_members (tk ++ 58 :: tv ++ 44 :: ts) ((k, v) :: ms).
+Definition rfc_text : list N -> value -> Prop := rfc_element.
